@@ -32,6 +32,7 @@ type WorkerConfig struct {
 	LogHashes    bool     `json:"log_hashes"`    // emit per-run log hashes (determinism self-test)
 	Profiles     []string `json:"profiles"`      // restrict to these profiles
 	ProfilesFrom string   `json:"profiles_from"` // use the workloads of another property (cross-checks)
+	DumpRun      int      `json:"dump_run"`      // >0: write the plan of run (dump_run-1) as a replay file and exit (used after a worker crash)
 	RaceLog      string   `json:"race_log"`      // GORACE log_path prefix: race reports are attributed per run
 	Calibrate    bool     `json:"calibrate"`     // run one calibration plan and report whether the detector saw the probe
 }
@@ -248,9 +249,25 @@ func RunWorker(t *testing.T, cfg *WorkerConfig) *WorkerOutput {
 		if cfg.BudgetS > 0 && time.Since(startWall).Seconds() > cfg.BudgetS {
 			break
 		}
+		if cfg.DumpRun > 0 {
+			i = cfg.DumpRun - 1
+		}
 		runSeed := rt.Mix(propSeed, uint64(i))
 		pr := pickProfile(profiles, rt.NewRand(rt.Mix(runSeed, 0x9f0f11e)))
 		plan := pr.Gen(runSeed, cfg.Tier)
+		if cfg.DumpRun > 0 {
+			rf := &ReplayFile{Format: 1, Property: cfg.Property, Clause: "process-crash", Signature: cfg.Property + "/process-crash [" + pr.Name + "]",
+				Message: "the worker process died while executing this plan (fatal runtime error inside the library: out of memory, stack overflow, concurrent map access, ...)",
+				Engine:  "wdsim", Profile: pr.Name, VerifSeed: cfg.Seed, RunSeed: runSeed, Plan: plan}
+			realos.MkdirAll(cfg.ReplayDir, 0o755)
+			path := fmt.Sprintf("%s/%s-%d-%x-crash.json", cfg.ReplayDir, cfg.Property, cfg.Seed, runSeed)
+			b, _ := json.MarshalIndent(rf, "", " ")
+			realos.WriteFile(path, b, 0o644)
+			out.Violations = append(out.Violations, ViolationReport{Signature: rf.Signature, Message: rf.Message, Replay: path, RunSeed: runSeed, Profile: pr.Name, Steps: len(plan.Steps), StepsOrig: len(plan.Steps)})
+			break
+		}
+		// a marker, so that the driver knows which run killed the process if it dies
+		realos.WriteFile(cfg.Out+".cur", []byte(fmt.Sprintf("%d", i+1)), 0o644)
 		out.ByProfile[pr.Name]++
 		res := Execute(t, plan.Clone(), opts)
 		out.Stats.Merge(res.Stats)
@@ -278,7 +295,8 @@ func RunWorker(t *testing.T, cfg *WorkerConfig) *WorkerOutput {
 				raceViolation = true
 			}
 		}
-		if cfg.Recheck > 0 && (i/cfg.Workers)%cfg.Recheck == 0 && len(res.Violations) == 0 && !raceViolation {
+		modeN := plan.Upload != nil && plan.Upload.Mode == "N" // net/http's selects choose at random: verdict-level determinism only
+		if cfg.Recheck > 0 && (i/cfg.Workers)%cfg.Recheck == 0 && len(res.Violations) == 0 && !raceViolation && !modeN {
 			again := Execute(t, plan.Clone(), opts)
 			out.Rechecked++
 			if again.Log.Hash() != res.Log.Hash() {
